@@ -168,7 +168,9 @@ func handleHelloResume(
 	if len(sessionID) > 0 && cfg.HasSessionStore && state.ExtendedMasterSecret {
 		if id, secret, err := cfg.GetSession(sessionID); err != nil {
 			return 0, &alert.Alert{Level: alert.Fatal, Description: alert.InternalError}, err
-		} else if id != nil {
+		} else if len(id) != 0 && len(secret) != 0 {
+			// A record without an ID or without a secret is no session,
+			// however the store spells "not found".
 			cfg.Log.Tracef("[handshake] resume session: %x", sessionID)
 
 			state.SessionID = sessionID
